@@ -135,13 +135,34 @@ def _w_bfs(job, chk):
     hf = {"murmur": None, "const": const_hash, "parity": parity_hash}[hname]
     # when the long-lived object is queried between membership changes: after every change, after every
     # second one (either parity), or not at all before the final lookups
-    queried = {"all": lambda i: True, "even": lambda i: i % 2 == 0, "odd": lambda i: i % 2 == 1, "never": lambda i: False}[pattern]
+    queried = {"all": lambda i: True, "even": lambda i: i % 2 == 0, "odd": lambda i: i % 2 == 1, "never": lambda i: False,
+               "ctor": lambda i: True}[pattern]
     nodes = UNIVERSE[2:7]  # contains the tie pair
     keys = corpus(300 if tier == "quick" else 1000)
     max_depth = 6 if tier == "quick" else 8
 
     def build(hist):
         r = RendezvousHash() if hf is None else RendezvousHash(hash_function=hf)
+        if pattern == "ctor":
+            # the leading additions are handed to the constructor instead; and every node is added once more
+            # (a no-op by contract) right before it is removed
+            lead = []
+            for op, nd in hist:
+                if op != "+":
+                    break
+                lead.append(nd)
+            r = RendezvousHash(nodes=list(lead)) if hf is None else RendezvousHash(nodes=list(lead), hash_function=hf)
+            rest = list(hist[len(lead):])
+            for j, (op, nd) in enumerate(rest):
+                if op == "-":
+                    r.add_node(nd)
+                    r.remove_node(nd)
+                else:
+                    r.add_node(nd)
+                if j < len(rest) - 1:
+                    for k in keys[:40]:
+                        r.get_node(k)
+            return r
         for i, (op, nd) in enumerate(hist[:-1]):
             (r.add_node if op == "+" else r.remove_node)(nd)
             if queried(i):
@@ -298,7 +319,7 @@ def run(chk):
     tier = chk.tier
     sets = [(ns, tier) for size in range(8, 0, -1) for ns in itertools.combinations(UNIVERSE, size)]
     sets.sort(key=lambda j: -(len(j[0]) if len(j[0]) <= (6 if tier == "thorough" else 5) else 1))
-    runner.parallel(chk, _w_all, [("bfs", (tier, h, pat)) for h in ("murmur", "const", "parity") for pat in ("all", "even", "odd", "never")] + [("hash", tier)]
+    runner.parallel(chk, _w_all, [("bfs", (tier, h, pat)) for h in ("murmur", "const", "parity") for pat in ("all", "even", "odd", "never", "ctor")] + [("hash", tier)]
                     + [("sets", j) for j in sets])
     seeds = [0, 1, 2, 12345, 4294967295] if tier == "quick" else [0, 1, 2, 3, 7, 12345, 99999, 4294967295]
     sub = chk.fresh()
